@@ -33,6 +33,8 @@ type Layout struct {
 
 var heredocRe = regexp.MustCompile(`<<[~-]?(["'` + "`" + `]?)([A-Za-z_][A-Za-z0-9_]*)(["'` + "`" + `]?)`)
 
+var blockParamsAtEnd = regexp.MustCompile(`\bdo\s*\|[^|]*\|\s*$`)
+
 var contTokens = []string{",", "\\", "+", "-", "*", "/", "=", "&&", "||", "|", "&", ".", "::", "(", "[", "{", "?", ":", "<", ">", "<<", "%", "!", "^", "and", "or", "not", "then", "=>", "&."}
 
 // Scan analyses src line by line. It is deliberately conservative: whenever it is unsure it marks the
@@ -233,6 +235,10 @@ func Scan(src string) *Layout {
 		}
 		if lastSig == "if" || lastSig == "unless" || lastSig == "while" || lastSig == "until" || lastSig == "when" || lastSig == "in" || lastSig == "and" || lastSig == "or" || lastSig == "not" {
 			cont = true
+		}
+		// `… do |a, b|` / `… { |a|` at the end of a line closes a block parameter list: the `|` is not an operator
+		if lastSig == "|" && blockParamsAtEnd.MatchString(line) {
+			cont = false
 		}
 		info.InLiteral = len(pendingHeredocs) > 0
 		info.SafeAfter = depth == 0 && !cont && !info.InLiteral
